@@ -137,11 +137,11 @@ Definition q_default_ench (t : bool) : ench :=
 
 Lemma to_smtp_err_shape e :
   wa e = true ->
-  to_smtp_err e =
+  to_smtp_err0 e =
   mk_reply (reply_triple e (if is_temp_or_unspec e then 451 else 554)
                          (q_default_ench (is_temp_or_unspec e))) (fun m => m).
 Proof.
-  intros Hwa. unfold to_smtp_err.
+  intros Hwa. unfold to_smtp_err0.
   destruct (fields_annot e Hwa) as (H1 & H2 & H3). rewrite H1, H2, H3.
   unfold reply_triple, annotated_reply, mk_reply, q_default_ench.
   destruct e; try reflexivity; simpl in *;
@@ -250,21 +250,42 @@ Qed.
 
 (* ---------- C16, queue ---------- *)
 
-Lemma to_smtp_err_coherent e :
-  wa e = true -> coherent (on_wire (to_smtp_err e)) = true.
+Lemma ench_ok_filled c en m :
+  ench_ok c en = true ->
+  coherent {| r_code := c;
+              r_ench := if ench_eqb en ench_notset then {| e0 := c / 100; e1 := 0; e2 := 0 |} else en;
+              r_msg := m |} = true.
 Proof.
-  intros Hwa. rewrite (to_smtp_err_shape e Hwa).
+  unfold ench_ok, coherent, cls; simpl. intros H. apply andb_true_iff in H as [Hc He]. rewrite Hc. simpl.
+  destruct (ench_eqb en ench_notset); simpl.
+  - apply Z.eqb_refl.
+  - simpl in He. exact He.
+Qed.
+
+(* what the queue stores (and copies into failure reports) is coherent as it stands *)
+Lemma to_smtp_err_coherent e :
+  wa e = true -> coherent (to_smtp_err e) = true.
+Proof.
+  intros Hwa. unfold to_smtp_err. rewrite (to_smtp_err_shape e Hwa).
   destruct (reply_triple_cases e (if is_temp_or_unspec e then 451 else 554)
               (q_default_ench (is_temp_or_unspec e)) Hwa)
-    as [(c & en & m & -> & Hok & _ & _) | (-> & _ & _)]; unfold mk_reply.
-  - apply ench_ok_coherent, Hok.
-  - apply q_default_coherent.
+    as [(c & en & m & -> & Hok & _ & _) | (-> & _ & _)]; unfold mk_reply; cbn [r_code r_ench r_msg].
+  - apply ench_ok_filled, Hok.
+  - destruct (is_temp_or_unspec e); reflexivity.
+Qed.
+
+Lemma to_smtp_err_has_status e :
+  wa e = true -> Z.eqb (e0 (r_ench (to_smtp_err e))) 0 = false.
+Proof.
+  intros Hwa. pose proof (to_smtp_err_coherent e Hwa) as H. unfold coherent in H.
+  apply andb_true_iff in H as [Hc He]. apply Z.eqb_eq in He. rewrite He.
+  apply orb_true_iff in Hc as [Hc|Hc]; apply Z.eqb_eq in Hc; rewrite Hc; reflexivity.
 Qed.
 
 Lemma to_smtp_err_class_retry e :
   wa e = true -> Z.eqb (cls (r_code (to_smtp_err e))) 4 = is_temp_or_unspec e.
 Proof.
-  intros Hwa. rewrite (to_smtp_err_shape e Hwa).
+  intros Hwa. unfold to_smtp_err. cbn [r_code]. rewrite (to_smtp_err_shape e Hwa).
   destruct (reply_triple_cases e (if is_temp_or_unspec e then 451 else 554)
               (q_default_ench (is_temp_or_unspec e)) Hwa)
     as [(c & en & m & -> & _ & Ht & _) | (-> & _ & _)]; unfold mk_reply; simpl.
